@@ -1,7 +1,7 @@
 CONSTANTS
   Dev = {}
-  RD = 2
-  MaxRetries = 2
+  TickMs = 10000
+  Confs <- GConfsT
   MaxDgrams = 3
   MaxOps = 14
   PathMode = FALSE
